@@ -20,7 +20,6 @@ import (
 	"fmt"
 	"log"
 	"log/slog"
-	"strconv"
 	"strings"
 	"testing"
 	"text/template"
@@ -30,39 +29,6 @@ import (
 )
 
 type vOpaque = String
-
-func vFmtPath(verb string, bits, w, p int) *vPath {
-	f := "%"
-	for i, c := range []string{"+", "-", "#", " ", "0"} {
-		if bits&(1<<i) != 0 {
-			f += c
-		}
-	}
-	if w > 0 {
-		f += strconv.Itoa(w - 1)
-	}
-	if p > 0 {
-		f += "." + strconv.Itoa(p-1)
-	}
-	f += verb
-	return &vPath{
-		coq:    fmt.Sprintf("(pf \"%s\" %d %d %d)", verb, bits, w, p),
-		label:  "fmt.Sprintf(" + strconv.Quote(f) + ")",
-		render: func(v any) string { return fmt.Sprintf(f, v) },
-		cause: func(sh *vShape) string {
-			if !strings.Contains("vsxXqT", verb) {
-				return "fmt-verb-not-stringer"
-			}
-			if sh.hasUnexported() {
-				return "fmt-unexported-field"
-			}
-			if (verb == "s" || verb == "q") && sh.hasDeepPtr() {
-				return "fmt-inner-pointer-verb"
-			}
-			return "unexplained"
-		},
-	}
-}
 
 func vCauseFmtV(sh *vShape) string {
 	if sh.hasUnexported() {
